@@ -167,7 +167,7 @@ def run(ctx):
     for i in range(ctx.scale(600, 20000)):
         text = gen.soup(ctx.rng)
         frag = ctx.rng.choice(frags)
-        streams = {}
+        streams, abstracts = {}, {}
         for kind in ("etree", "dom"):
             try:
                 tree = gen.parse_real(text, tb=kind, fragment=frag, full=True)
@@ -186,7 +186,13 @@ def run(ctx):
                 toks = one(ctx, tree, kind, abstract, reqs, reals, "parsed")
                 if frag is None and i % 3 == 0 and tree.documentElement is not None:
                     one(ctx, tree.documentElement, kind, trees.from_dom(tree.documentElement), reqs, reals, "parsed-root")
+                # walk from inner nodes that have following siblings (the walk must stop at its start node)
+                inner = [n for n in tree.getElementsByTagName("*") if n.nextSibling is not None][:40] if hasattr(tree, "getElementsByTagName") else []
+                if inner and i % 2 == 0:
+                    n = ctx.rng.choice(inner)
+                    one(ctx, n, kind, trees.from_dom(n), reqs, reals, "parsed-inner")
             streams[kind] = toks
+            abstracts[kind] = trees.merge_text(abstract)
 
         def coalesce(toks):
             out = []
@@ -202,10 +208,21 @@ def run(ctx):
                         d["data"] = sorted(d["data"].items(), key=repr)
                     out.append(("O", repr(sorted(d.items(), key=repr))))
             return out
-        if streams.get("etree") is not None and streams.get("dom") is not None:
+        # the same tree must give the same stream whatever the back end; when the two BUILDERS already built different
+        # trees (property C04, e.g. minidom's local-name attribute collision) there is nothing to compare here
+        if streams.get("etree") is not None and streams.get("dom") is not None and abstracts["etree"] == abstracts["dom"]:
+            ctx.count("cross-walker-compared")
             if coalesce(streams["etree"]) != coalesce(streams["dom"]):
                 ctx.fail("walkers-differ", "etree and dom walkers emit different streams for the same document",
                          {"input": text, "fragment": frag})
+    # documents with content after </html> / </body>, walked from the root element
+    for tail in ("<!--trailer-->", "<!--a--><!--b-->", " ", "<!--x--> <p>y"):
+        for body in ("<p>a</p>", "", "<table><tr><td>x</table>"):
+            import html5lib
+            d = html5lib.parse("<!DOCTYPE html><html><body>" + body + "</body></html>" + tail, treebuilder="dom")
+            one(ctx, d.documentElement, "dom", trees.from_dom(d.documentElement), reqs, reals, "root-with-trailer")
+            for n in d.getElementsByTagName("*"):
+                one(ctx, n, "dom", trees.from_dom(n), reqs, reals, "root-with-trailer")
     kinds = ["el", "void", "svg", "nons", "text", "empty", "comment", "down"]
     maxn = ctx.scale(3, 5)
     shapes = [s for n in range(0, maxn + 1) for s in itertools.product(kinds, repeat=n)]
